@@ -142,6 +142,11 @@ func VerifHarness_C15_history() {
 		after := vC15Snap(vs)
 		if defect != 0 {
 			vAssert(!added && err != nil, "malformed-vote-rejected")
+			if defect == 5 {
+				// a vote nobody can attribute to the validator is not evidence that the validator double-signed
+				_, isConflict := err.(*ErrVoteConflictingVotes)
+				vAssert(!isConflict, "badly-signed-vote-is-not-reported-as-a-conflicting-vote")
+			}
 			vAssert(after == before, "rejected-vote-leaves-state")
 		} else {
 			if !dup {
